@@ -221,8 +221,14 @@ class CodecCheck:
             # bit-field runs, nested structs, dynamic members)
             two = absyn.universe(2)
             sub = rnd.sample(ucases, min(len(ucases), 120)) + rnd.sample(two, self.quick_pairs)
-        recs = scenarios_from_universe(sub, rnd, both=self.both, compiled=self.compiled,
-                                       inputs=("ramp", "ff", "x80", "zero", "rand") if thorough else ("ramp", "rand"))
+        if thorough:
+            # judged in stages (see below): CHUNK records at a time
+            recs, per = [], max(1, CHUNK // 5)
+            for a in range(0, len(sub), per):
+                adjudicate(rep, scenarios_from_universe(sub[a:a + per], rnd, both=self.both, compiled=self.compiled,
+                                                        inputs=("ramp", "ff", "x80", "zero", "rand")), self.owned, nontrivial=self.nontrivial)
+        else:
+            recs = scenarios_from_universe(sub, rnd, both=self.both, compiled=self.compiled, inputs=("ramp", "rand"))
         # E2 (b): random definitions far beyond the bounds
         n = self.thorough_n if thorough else self.quick_n
         if n <= CHUNK:
@@ -232,8 +238,7 @@ class CodecCheck:
             adjudicate(rep, recs, self.owned, nontrivial=self.nontrivial)
             return
         # thorough: judged in stages, so that the harness never holds more than one stage's records (a whole thorough run held ~10 GB)
-        adjudicate(rep, recs, self.owned, nontrivial=self.nontrivial)
-        base, recs = len(recs), None
+        base, recs = 5 * len(sub), None
         left = n
         while left > 0:
             k = min(left, CHUNK)
